@@ -18,7 +18,7 @@ import subprocess
 import sys
 import time
 
-ROOT = "/verif"
+ROOT = os.path.dirname(os.path.dirname(os.path.abspath(__file__)))
 CACHE = ROOT + "/.cache"
 OUT = ROOT + "/out"
 COQ = ROOT + "/coq"
@@ -464,7 +464,7 @@ def miri_replay(prop, cases, model_obs, tmp, all_faults, shards=12, per_shard=14
     if not chosen:
         return {"miri_cases": 0}
     env = dict(ENV, MIRIFLAGS="-Zmiri-ignore-leaks -Zmiri-disable-isolation", CARGO_TARGET_DIR=CACHE + "/target-miri")
-    b = subprocess.run("cd /verif/harness && cargo +nightly miri build --offline 2>&1 || cargo +nightly miri run --offline -- /dev/null /dev/null 2>&1",
+    b = subprocess.run("cd " + ROOT + "/harness && cargo +nightly miri build --offline 2>&1 || cargo +nightly miri run --offline -- /dev/null /dev/null 2>&1",
                        shell=True, text=True, capture_output=True, env=env, timeout=1800)
     procs = []
     for s in range(shards):
@@ -475,7 +475,7 @@ def miri_replay(prop, cases, model_obs, tmp, all_faults, shards=12, per_shard=14
         with open(cp, "w") as f:
             f.write("\n".join(cases[i] for i in mine) + "\n")
         op, fp, mk = f"{tmp}.miri{s}.i", f"{tmp}.miri{s}.f", f"{tmp}.miri{s}.marker"
-        p = subprocess.Popen(f"cd /verif/harness && cargo +nightly miri run --offline -- {cp} {fp} {mk} > {op} 2> {op}.err",
+        p = subprocess.Popen(f"cd {ROOT}/harness && cargo +nightly miri run --offline -- {cp} {fp} {mk} > {op} 2> {op}.err",
                              shell=True, env=env)
         procs.append((mine, cp, op, fp, mk, p))
     ub, diff_cases, ran = [], [], 0
@@ -784,7 +784,7 @@ def write_evidence(prop, tier, seed, gate, dist, cases, nt, validated, ksample, 
     cov = {
         "obligations": gate.get("obligations", 0),
         "discharged": gate.get("discharged", 0),
-        "checker_cmd": f"cd /verif/coq && make -j16 && coqc -Q Model Model -Q Proofs Proofs -Q Props Props Props/{prop}.v",
+        "checker_cmd": f"cd {ROOT}/coq && make -j16 && coqc -Q Model Model -Q Proofs Proofs -Q Props Props Props/{prop}.v",
         "trusted_base": TRUSTED,
         "theorems": gate.get("theorems", []),
         "axioms_reported": gate.get("axioms", []),
